@@ -140,7 +140,10 @@ impl Trace {
     /// true if at position p no update is in flight and the segment is live
     pub fn idle_at(&self, p: u32) -> bool {
         match (self.version_at(p), self.gen_at(p)) {
-            (Some(v), Some(g)) => v != 0 && g != 0 && g % 2 == 0 && !self.inflight.get(p as usize).copied().unwrap_or(false),
+            // "no update in flight" is a fact about the writer (no write() call in progress), not about the
+            // parity of the generation: a writer that leaves an odd generation behind after completing an
+            // update must not make every later call look excusable
+            (Some(v), Some(g)) => v != 0 && (g != 0 || self.spans.iter().any(|s| s.end.map(|e| e <= p).unwrap_or(false))) && !self.inflight.get(p as usize).copied().unwrap_or(false),
             _ => false,
         }
     }
@@ -773,7 +776,29 @@ fn h_data_write(dst: usize, src: *const u8, len: usize) {
         std::panic::resume_unwind(Box::new(CrashSentinel));
     }
 }
+/// Directed adversary for the "continuously updating writer" clause: after every record copy of the
+/// reader (i.e. before its re-check of the generation) a real writer completes one more update.
+pub struct Adversary {
+    pub writer: ShmWriter,
+    pub updates: u64,
+    pub max_updates: u64,
+    pub copies: u64,
+}
+thread_local! { pub static ADVERSARY: RefCell<Option<Adversary>> = const { RefCell::new(None) }; }
+
 fn h_data_read(src: usize, dst: *mut u8, len: usize) {
+    let adv = ADVERSARY.with(|a| a.borrow_mut().take());
+    if let Some(mut adv) = adv {
+        // SAFETY: contract of the hook
+        unsafe { std::ptr::copy_nonoverlapping(src as *const u8, dst, len) };
+        adv.copies += 1;
+        if adv.updates < adv.max_updates {
+            adv.updates += 1;
+            adv.writer.write(&tagged(2 + (adv.updates % 1000) as i64).to_ceb());
+        }
+        ADVERSARY.with(|a| *a.borrow_mut() = Some(adv));
+        return;
+    }
     let cut = with(|e| {
         if e.role == Role::Off {
             // SAFETY: contract of the hook
@@ -1219,32 +1244,20 @@ pub fn explore_reader(
         e.failure = None;
     });
     stats.attach_points += 1;
-    reset_reader(trace, cfg, attach);
-    let first = open_reader(&cpath);
-    on_attach(&AttachResult { attach, file_valid, opened: first.as_ref().map(|_| ()).map_err(|e| shm_err_name(e).to_string()) });
-    let first = match first {
-        Ok(r) => r,
-        Err(_) => {
-            stats.attach_refused += 1;
-            with(|e| e.role = Role::Off);
-            return Ok(());
-        }
-    };
-    let s0 = rstate(&first.reader);
-    drop(first);
-
+    // The attach itself (ShmReader::new) is explored like a call: it normally performs no intercepted
+    // load, but an implementation whose constructor reads the segment has choices there too. A path is
+    // [choices during new(), choices of call 1, choices of call 2, ...].
     let mut seen: BTreeSet<RState> = BTreeSet::new();
-    let mut frontier: VecDeque<(RState, Vec<Vec<u32>>)> = VecDeque::new();
+    let mut frontier: VecDeque<(Option<RState>, Vec<Vec<u32>>)> = VecDeque::new();
     let mut spin_sigs: BTreeSet<(Vec<u16>, View)> = BTreeSet::new();
-    seen.insert(s0.clone());
-    frontier.push_back((s0, vec![]));
-    stats.states += 1;
+    frontier.push_back((None, vec![]));
+    let mut any_open = false;
     let mut stop = false;
     while let Some((state, path)) = frontier.pop_front() {
         if stop {
             break;
         }
-        // depth-first over the choice tree of one more call from `state`
+        // depth-first over the choice tree of one more step (the attach, or one more call) from `state`
         let mut prefix: Vec<u32> = vec![];
         loop {
             if crate::common::vclock::raw_now_s() > cfg.deadline_s || seen.len() > cfg.max_states {
@@ -1253,63 +1266,96 @@ pub fn explore_reader(
                 break;
             }
             reset_reader(trace, cfg, attach);
-            let mut run = match open_reader(&cpath) {
-                Ok(r) => r,
-                Err(_) => return Err("reader attach is not deterministic".into()),
-            };
-            for c in &path {
-                let _ = one_call(&mut run, c.clone());
-            }
-            let before = rstate(&run.reader);
-            if before != state {
-                return Err(format!("replay divergence: state after replaying {} calls differs", path.len()));
-            }
-            let (mut result, mut returned, mut taken, mut cstats) = one_call(&mut run, prefix.clone());
-            stats.executions += 1;
-            if result == CallResult::CutSpin {
-                stats.cut_spins += 1;
-                let sig = (cstats.gens_seen.clone(), with(|e| e.rtv.cur));
-                if cfg.full_spin_once && spin_sigs.insert(sig) {
-                    // run this spinning call in full, once per signature: it must terminate
-                    reset_reader(trace, cfg, attach);
-                    with(|e| e.cut_after = u64::MAX);
-                    let mut run2 = open_reader(&cpath).map_err(|_| "reader attach is not deterministic".to_string())?;
-                    for c in &path {
-                        let _ = one_call(&mut run2, c.clone());
-                    }
-                    let full = one_call(&mut run2, prefix.clone());
-                    stats.full_spins += 1;
-                    result = full.0;
-                    returned = full.1;
-                    taken = full.2;
-                    cstats = full.3;
-                    run = run2;
+            let taken: Vec<(u32, u32)>;
+            if path.is_empty() {
+                with(|e| e.begin_call(prefix.clone()));
+                let opened = std::panic::catch_unwind(std::panic::AssertUnwindSafe(|| open_reader(&cpath)));
+                taken = with(|e| e.taken.clone());
+                stats.executions += 1;
+                if let Some(f) = with(|e| e.failure.take()) {
+                    with(|e| e.role = Role::Off);
+                    return Err(format!("MACHINERY: {f}"));
                 }
-            }
-            let after = rstate(&run.reader);
-            drop(run);
-            if let Some(f) = with(|e| e.failure.take()) {
-                with(|e| e.role = Role::Off);
-                return Err(format!("MACHINERY: {f}"));
-            }
-            stats.transitions += 1;
-            stats.choice_points += taken.len() as u64;
-            stats.max_loads_per_call = stats.max_loads_per_call.max(cstats.loads);
-            stats.max_data_reads_per_call = stats.max_data_reads_per_call.max(cstats.data_reads);
-            if cstats.data_reads > 1 {
-                stats.calls_with_retry += 1;
-            }
-            let devs = taken.iter().filter(|t| t.0 > 0).count() as u32;
-            stats.deviations_max = stats.deviations_max.max(devs);
-            let mut full_path = path.clone();
-            full_path.push(taken.iter().map(|t| t.0).collect());
-            let tr = Transition { attach, path: full_path.clone(), before: state.clone(), after: after.clone(), result: result.clone(), returned, stats: cstats };
-            if !on_transition(&tr) {
-                stop = true;
-            }
-            if matches!(result, CallResult::Ok | CallResult::Err(_)) && seen.insert(after.clone()) {
-                stats.states += 1;
-                frontier.push_back((after, full_path));
+                match opened {
+                    Ok(Ok(run)) => {
+                        any_open = true;
+                        on_attach(&AttachResult { attach, file_valid, opened: Ok(()) });
+                        let s0 = rstate(&run.reader);
+                        drop(run);
+                        if seen.insert(s0.clone()) {
+                            stats.states += 1;
+                            frontier.push_back((Some(s0), vec![taken.iter().map(|t| t.0).collect()]));
+                        }
+                    }
+                    Ok(Err(e)) => on_attach(&AttachResult { attach, file_valid, opened: Err(shm_err_name(&e).to_string()) }),
+                    Err(p) => {
+                        let m = if p.downcast_ref::<CutSentinel>().is_some() { "did not terminate".to_string() } else { p.downcast_ref::<&str>().map(|s| s.to_string()).or_else(|| p.downcast_ref::<String>().cloned()).unwrap_or_else(|| "panic".into()) };
+                        on_attach(&AttachResult { attach, file_valid, opened: Err(format!("panic: {m}")) });
+                    }
+                }
+            } else {
+                let state = state.as_ref().unwrap();
+                with(|e| e.begin_call(path[0].clone()));
+                let mut run = match open_reader(&cpath) {
+                    Ok(r) => r,
+                    Err(_) => return Err("reader attach is not deterministic".into()),
+                };
+                for c in &path[1..] {
+                    let _ = one_call(&mut run, c.clone());
+                }
+                let before = rstate(&run.reader);
+                if before != *state {
+                    return Err(format!("replay divergence: state after replaying {} calls differs", path.len() - 1));
+                }
+                let (mut result, mut returned, mut tk, mut cstats) = one_call(&mut run, prefix.clone());
+                stats.executions += 1;
+                if result == CallResult::CutSpin {
+                    stats.cut_spins += 1;
+                    let sig = (cstats.gens_seen.clone(), with(|e| e.rtv.cur));
+                    if cfg.full_spin_once && spin_sigs.insert(sig) {
+                        // run this spinning call in full, once per signature: it must terminate
+                        reset_reader(trace, cfg, attach);
+                        with(|e| e.cut_after = u64::MAX);
+                        with(|e| e.begin_call(path[0].clone()));
+                        let mut run2 = open_reader(&cpath).map_err(|_| "reader attach is not deterministic".to_string())?;
+                        for c in &path[1..] {
+                            let _ = one_call(&mut run2, c.clone());
+                        }
+                        let full = one_call(&mut run2, prefix.clone());
+                        stats.full_spins += 1;
+                        result = full.0;
+                        returned = full.1;
+                        tk = full.2;
+                        cstats = full.3;
+                        run = run2;
+                    }
+                }
+                let after = rstate(&run.reader);
+                drop(run);
+                if let Some(f) = with(|e| e.failure.take()) {
+                    with(|e| e.role = Role::Off);
+                    return Err(format!("MACHINERY: {f}"));
+                }
+                stats.transitions += 1;
+                stats.choice_points += tk.len() as u64;
+                stats.max_loads_per_call = stats.max_loads_per_call.max(cstats.loads);
+                stats.max_data_reads_per_call = stats.max_data_reads_per_call.max(cstats.data_reads);
+                if cstats.data_reads > 1 {
+                    stats.calls_with_retry += 1;
+                }
+                let devs = tk.iter().filter(|t| t.0 > 0).count() as u32;
+                stats.deviations_max = stats.deviations_max.max(devs);
+                let mut full_path = path.clone();
+                full_path.push(tk.iter().map(|t| t.0).collect());
+                let tr = Transition { attach, path: full_path.clone(), before: state.clone(), after: after.clone(), result: result.clone(), returned, stats: cstats };
+                if !on_transition(&tr) {
+                    stop = true;
+                }
+                if matches!(result, CallResult::Ok | CallResult::Err(_)) && seen.insert(after.clone()) {
+                    stats.states += 1;
+                    frontier.push_back((Some(after), full_path));
+                }
+                taken = tk;
             }
             // odometer: deepest choice point with an untried alternative
             let mut i = taken.len();
@@ -1332,6 +1378,9 @@ pub fn explore_reader(
             }
         }
     }
+    if !any_open {
+        stats.attach_refused += 1;
+    }
     with(|e| e.role = Role::Off);
     Ok(())
 }
@@ -1349,9 +1398,10 @@ pub fn replay_path(trace: &Trace, cfg: &ExploreCfg, attach: u32, path: &[Vec<u32
         e.failure = None;
     });
     reset_reader(trace, cfg, attach);
+    with(|e| e.begin_call(path.first().cloned().unwrap_or_default()));
     let mut run = open_reader(&cpath).map_err(|e| format!("attach refused: {}", shm_err_name(&e)))?;
     let mut out = vec![];
-    for c in path {
+    for c in path.iter().skip(1) {
         let (r, rec, _, st) = one_call(&mut run, c.clone());
         out.push((r, rec, st));
     }
